@@ -335,6 +335,10 @@ def rule_r1_r2(toks, hits):
     out = toks[:p + 1]
     lets = []
     k = p + 1
+    r8 = False
+    if toks[k].text == 'mut' and toks[k + 1].text == 'self':
+        r8 = True
+        k += 1
     ordinal = 0
     pstart = True
     while k < pe:
@@ -377,6 +381,17 @@ def rule_r1_r2(toks, hits):
     if toks[b].text == '{':
         out.extend(lets)
         body = toks[b + 1:]
+        if r8:
+            # R8: a `mut self` receiver is a mutable local: `self` + `let mut this = self;`, body renamed
+            out.extend(T('let mut this = self;'))
+            nb = []
+            for t in body:
+                if t.kind == 'ident' and t.text == 'self':
+                    nb.append(Tok('ident', 'this', t.trivia, t.line))
+                else:
+                    nb.append(t)
+            body = nb
+            hits['R8'] = hits.get('R8', 0) + 1
         out.extend(rule_r2(body, hits))
     return out
 
@@ -634,7 +649,10 @@ def sig_tokens(toks, item):
     while toks[k].text != 'fn':
         k += 1
     end = item.body_open if item.body_open is not None else item.end - 1
-    return [t.text for t in toks[k:end]]
+    ts = [t.text for t in toks[k:end]]
+    while ts and ts[-1] in (',', ';'):
+        ts.pop()
+    return ts
 
 
 def check_contract_of(unit, toks, i, n, arg):
